@@ -129,8 +129,12 @@ def _decode(b: bytes):
         k = r.byte()
         pair = r.pick(good) if k < 120 else r.pick(PAIRS)
         enc = r.pick(ENC)
-        reqs.append({"user": pair[0], "password": pair[1], "enc": enc,
-                     "method": r.pick(["GET", "GET", "POST", "PUT"]), "connect": r.byte() < 160})
+        method = r.pick(["GET", "GET", "POST", "PUT"])
+        bk = r.byte()
+        reqs.append({"user": pair[0], "password": pair[1], "enc": enc, "method": method, "connect": r.byte() < 160,
+                     # request bodies around the stream_large_bodies / body_size_limit thresholds below
+                     "blen": BODY_LENS[bk % len(BODY_LENS)] if method != "GET" else 0,
+                     "chunked": bool(bk & 64), "pieces": 1 + (bk >> 7) + (bk % 3 == 0)})
     dl = r.byte() % 8
     delivery = "seq" if dl < 4 else "pipeline" if dl < 6 else "cuts"
     if path == "transparent" and delivery == "cuts":
@@ -138,7 +142,26 @@ def _decode(b: bytes):
         # authentication by design); keep the request line in one piece there
         delivery = "pipeline"
     cuts = [r.byte() << 8 | r.byte() for _ in range(1 + r.byte() % 4)] if delivery == "cuts" else []
-    return {"validator": val, "path": path, "reqs": reqs, "delivery": delivery, "cuts": cuts, "eager": bool(r.byte() & 1)}
+    eager = bool(r.byte() & 1)
+    stream = r.pick(STREAM_OPTS)
+    limit = r.pick(LIMIT_OPTS)
+    if limit is not None:
+        # a request over body_size_limit is answered with an error and ends the connection: nothing follows it
+        for i, rq in enumerate(reqs):
+            if rq["blen"] > _size(limit):
+                del reqs[i + 1:]
+                break
+    return {"validator": val, "path": path, "reqs": reqs, "delivery": delivery, "cuts": cuts, "eager": eager,
+            "stream_large_bodies": stream, "body_size_limit": limit}
+
+
+BODY_LENS = [9, 3, 5, 6, 16, 17, 40, 1100, 9, 1]
+STREAM_OPTS = [None, None, "5", "16", "1k", None]
+LIMIT_OPTS = [None, None, None, "32", "1k", None]
+
+
+def _size(s):
+    return int(s[:-1]) * 1024 if s.endswith("k") else int(s)
 
 
 def strategy(ctx):
@@ -238,6 +261,13 @@ def expectation(req, validator, socks=False, any_validator=False) -> str:
 SOCKS_NOAUTH = ("missing", "bearer", "digest", "empty", "nocolon", "badb64")
 
 
+def _body_class(case, rq):
+    st_ = case.get("stream_large_bodies")
+    if rq.get("blen", 0) and st_ and rq["blen"] > _size(st_):
+        return ",body>stream_large_bodies,%s" % ("chunked" if rq.get("chunked") else "content-length")
+    return ""
+
+
 def _enc_class(enc):
     return "canonical" if enc in ("canonical", "lower-scheme", "lower-name") else enc
 
@@ -267,17 +297,33 @@ ORIGIN = ("origin.example", 80)
 UPSTREAM = ("upstream.example", 3128)
 
 
+def _payload(i, req) -> bytes:
+    if req["method"] not in ("POST", "PUT"):
+        return b""
+    n = req.get("blen", 9)
+    unit = b"payload-%d" % i
+    return (unit * (n // len(unit) + 1))[:n] if n != 9 else unit
+
+
 def _http_request(i, req, form, name, with_cred=True):
+    """-> (bytes, tokens, segments: head and body pieces as a client may write them)"""
     lines_cred, toks = cred_headers(req, name) if with_cred else ([], [])
-    body = b"payload-%d" % i if req["method"] in ("POST", "PUT") else b""
+    body = _payload(i, req)
     if form == "abs":
         target = b"http://origin.example/r%d" % i
     else:
         target = b"/r%d" % i
     lines = [req["method"].encode() + b" " + target + b" HTTP/1.1", b"Host: origin.example", b"X-Seq: %d" % i] + lines_cred
-    if body:
+    k = max(1, req.get("pieces", 1))
+    step = max(1, -(-len(body) // k))
+    parts = [body[j:j + step] for j in range(0, len(body), step)]
+    if body and req.get("chunked"):
+        lines.append(b"Transfer-Encoding: chunked")
+        parts = [b"%x\r\n%s\r\n" % (len(x), x) for x in parts] + [b"0\r\n\r\n"]
+    elif body:
         lines.append(b"Content-Length: %d" % len(body))
-    return b"\r\n".join(lines) + b"\r\n\r\n" + body, toks
+    head = b"\r\n".join(lines) + b"\r\n\r\n"
+    return head + b"".join(parts), toks, [head] + parts
 
 
 def _connect_request(i, req, name):
@@ -288,14 +334,14 @@ def _connect_request(i, req, name):
 
 def _make_msg(path, i, rq, validator, name, proxy_style, tunnel):
     if tunnel:
-        b, toks = _http_request(i, rq, "origin", name, with_cred=False)
-        return {"kind": "inner", "bytes": b, "expect": ACCEPT, "tokens": [], "idx": i, "req": rq}
+        b, toks, segs = _http_request(i, rq, "origin", name, with_cred=False)
+        return {"kind": "inner", "bytes": b, "expect": ACCEPT, "tokens": [], "idx": i, "req": rq, "segs": segs}
     exp = expectation(rq, validator, any_validator=type(validator).__name__ == "AcceptAll")
     if path in ("regular-connect", "upstream-connect") and rq["connect"]:
         b, toks = _connect_request(i, rq, name)
         return {"kind": "connect", "bytes": b, "expect": exp, "tokens": toks, "idx": i, "req": rq}
-    b, toks = _http_request(i, rq, "abs" if proxy_style else "origin", name)
-    return {"kind": "http", "bytes": b, "expect": exp, "tokens": toks, "idx": i, "req": rq}
+    b, toks, segs = _http_request(i, rq, "abs" if proxy_style else "origin", name)
+    return {"kind": "http", "bytes": b, "expect": exp, "tokens": toks, "idx": i, "req": rq, "segs": segs}
 
 
 def run_case(env, case):
@@ -310,7 +356,8 @@ def run_case(env, case):
     mode = {"regular-abs": "regular", "regular-connect": "regular", "upstream-abs": "upstream:http://upstream.example:3128",
             "upstream-connect": "upstream:http://upstream.example:3128", "reverse": "reverse:http://origin.example:80",
             "transparent": "transparent", "socks5": "socks5"}[path]
-    env.configure(proxyauth=pa, connection_strategy="eager" if case["eager"] else "lazy")
+    env.configure(proxyauth=pa, connection_strategy="eager" if case["eager"] else "lazy",
+                  stream_large_bodies=case.get("stream_large_bodies"), body_size_limit=case.get("body_size_limit"))
     validator = env.proxyauth.validator
     if validator is None:
         raise HarnessError("validator not configured for %r" % pa)
@@ -341,8 +388,8 @@ def run_case(env, case):
         msgs.append({"kind": "socks", "bytes": greet + auth + sreq, "expect": exp, "tokens": [], "idx": 0,
                      "offers_auth": offers_auth, "req": req0})
         for i, rq in enumerate(case["reqs"][1:], start=1):
-            b, _ = _http_request(i, rq, "origin", name, with_cred=False)
-            msgs.append({"kind": "inner", "bytes": b, "expect": ACCEPT, "tokens": [], "idx": i, "req": rq})
+            b, _, segs = _http_request(i, rq, "origin", name, with_cred=False)
+            msgs.append({"kind": "inner", "bytes": b, "expect": ACCEPT, "tokens": [], "idx": i, "req": rq, "segs": segs})
     else:
         for i, rq in enumerate(case["reqs"]):
             msgs.append(_make_msg(path, i, rq, validator, name, proxy_style, tunnel=False))
@@ -371,7 +418,10 @@ def deliver(d, client, msgs, case, tunnel_open, remake, sent):
                 for s in segments(m["bytes"], case["cuts"]):
                     d.recv(client, s)
             else:
-                d.recv(client, m["bytes"])
+                for s in m.get("segs") or [m["bytes"]]:
+                    if d.crashed:
+                        break
+                    d.recv(client, s)
             m["servers_after"], m["up_after"] = len(d.servers), sum(len(v) for v in d.sent.values()) - len(d.out(client))
             m["answer"] = d.out(client)[out_before:]
             sent.append(m)
@@ -407,9 +457,11 @@ def check_case(case, ctx):
     sent = deliver(d, client, msgs, case, tunnel_open,
                    lambda m: _make_msg(path, m["idx"], m["req"], validator, name, proxy_style, tunnel=True), msgs_sent)
     vk = case["validator"]["kind"]
-    if d.crashed is not None:
+    crashed = d.crashed is not None
+    if crashed:
+        # the connection handler dies ("mitmproxy has crashed!"): reported as its own bucket; what C20 still
+        # demands - nothing of a refused request reaches upstream - is judged below on what was written so far
         ctx.crash(d.crashed, "layer-crash")
-        return
     # an exception inside an addon hook is logged and swallowed by the addon manager; what matters for C20 is
     # the outcome (judged below), so it is only counted
     for name, e in env.addon_errors:
@@ -457,11 +509,34 @@ def check_case(case, ctx):
             if rest[:2] != b"\x05\x00":
                 fail("socks5-reply:" + klass, "client got %r" % cout[:16])
             inner = [m for m in sent if m["kind"] == "inner"]
+            lim = _size(case["body_size_limit"]) if case.get("body_size_limit") else None
+            for k_, m_ in enumerate(inner):
+                if lim is not None and m_["req"].get("blen", 0) > lim:
+                    ctx.cls("over-body-size-limit")
+                    inner = inner[:k_]
+                    break
             _check_inner(ctx, inner, rest[10:], forwarded, klass)
         _nontrivial(ctx, case, msgs, [ACCEPT if accepted0 else REJECT])
         return
 
-    # HTTP paths: responses in order
+    # HTTP paths.  First the upstream side alone (byte level, also valid after a crash or an incomplete exchange):
+    # a request that had to be refused leaves no trace on any upstream connection
+    limit = _size(case["body_size_limit"]) if case.get("body_size_limit") else None
+    for m in sent:
+        rq = m["req"]
+        if m["kind"] == "http" and m["expect"] == REJECT:
+            # bucket = clause + body class only (credential class / encoding are in the message)
+            klass = "http%s%s" % (",validator-raises" if rq.get("_raises") else "", _body_class(case, rq))
+            info = " | path=%s validator=%s enc=%s cred=%r/%r stream_large_bodies=%r body_size_limit=%r" % (
+                path, vk, rq["enc"], rq["user"], rq["password"], case.get("stream_large_bodies"), case.get("body_size_limit"))
+            if (b"/r%d " % m["idx"]) in up_bytes:
+                fail("refused-but-bytes-upstream:" + klass, repr(up_bytes[:300]))
+            if "servers_before" in m and (m["servers_after"] != m["servers_before"] or m["up_after"] != m["up_before"]):
+                fail("refused-but-upstream-activity:" + klass, "servers %d->%d, upstream bytes +%d" % (
+                    m["servers_before"], m["servers_after"], m["up_after"] - m["up_before"]))
+    if crashed:
+        ctx.cls("layer-crash:%s" % type(d.crashed).__name__)
+        return
     outcomes = []
     methods = [m["req"]["method"].encode() if m["kind"] != "connect" else b"CONNECT" for m in sent]
     try:
@@ -484,6 +559,11 @@ def check_case(case, ctx):
         resp = resps[j] if j < len(resps) else None
         tok = b"/r%d" % m["idx"]
         fw = [(o, r) for o, r in forwarded if r.method != b"CONNECT" and (r.target.endswith(tok))]
+        if limit is not None and rq.get("blen", 0) > limit and m["kind"] != "connect":
+            # over body_size_limit: mitmproxy answers with its own error and drops the connection, whatever the
+            # credentials; only the upstream side (judged above) is C20's business
+            ctx.cls("over-body-size-limit")
+            break
         if m["kind"] == "inner":
             if resp is None or resp.status != 200 or (rq["method"] != "HEAD" and resp.body != b"ok"):
                 fail("authenticated-tunnel-request-not-served:" + klass, "response %r" % (resp,))
@@ -523,7 +603,7 @@ def check_case(case, ctx):
                 for o, r in fw:
                     if r.get_all("proxy-authorization") or (not proxy_style and r.get_all("authorization")):
                         fail("credential-header-forwarded:" + klass, repr(r.headers))
-                    if rq["method"] in ("POST", "PUT") and r.body != b"payload-%d" % m["idx"]:
+                    if rq["method"] in ("POST", "PUT") and r.body != _payload(m["idx"], rq):
                         fail("body-changed:" + klass, repr(r.body))
         for t in m["tokens"]:
             if len(t) >= 8 and t.encode() in up_bytes:
